@@ -240,6 +240,14 @@ def _run_extra(fn, tier):
     return {"name": fn.__name__, "error": "unexpected: " + traceback.format_exc()[-1500:], "violations": []}
 
 
+def effective_tier(h, prop, tier):
+  """a harness may serve a *secondary* property with its quick partitions in both tiers (`quick_only_for`): its deep tier is
+  explored under its own property, and the roll-up property would otherwise repeat hours of the same paths"""
+  if tier == "thorough" and h.properties and h.properties[0] != prop and prop in getattr(h, "quick_only_for", ()):
+    return "quick"
+  return tier
+
+
 def check_property(prop, tier, extra_checks=None, seed=0):
   """run every harness that carries assertions of `prop`; returns exit code"""
   t0 = time.time()
@@ -253,8 +261,8 @@ def check_property(prop, tier, extra_checks=None, seed=0):
     return EXIT_INCONCLUSIVE
   jobs = []
   for h in harnesses:
-    for i, p in enumerate(h.partitions(tier)):
-      jobs.append((h.name, p, tier, [prop], i))
+    for i, p in enumerate(h.partitions(effective_tier(h, prop, tier))):
+      jobs.append((h.name, p, effective_tier(h, prop, tier), [prop], i))
   # largest partitions first is unknown; rotate by seed only (order has no influence on the verdict)
   if seed and jobs:
     k = seed % len(jobs)
@@ -413,7 +421,9 @@ def write_evidence(prop, tier, seed, harnesses, results, extra, wall, n_viol, kn
       "solver_s": round(sum(r["solver_s"] for r in results) + sum(e.get("solver_s", 0) for e in extra), 2),
       "functions_encoded": sorted(funcs),
       "harnesses": per_h,
-      "bounds": {h.name: getattr(h, "bounds", {}).get(tier, "") for h in harnesses},
+      "bounds": {h.name: getattr(h, "bounds", {}).get(effective_tier(h, prop, tier), "") +
+                 (" [quick partitions: the thorough tier of this harness runs under %s]" % h.properties[0]
+                  if effective_tier(h, prop, tier) != tier else "") for h in harnesses},
       "outside_the_claim": sorted(set(o for h in harnesses for o in h.outside)),
       "known_findings_reported": known_ids,
       "inconclusive": errors[:20],
